@@ -162,19 +162,21 @@ def h_func(t: FUNC_SEL) -> bool:
 # ------------------------------------------------------------------- h_class
 
 # base (0 none, 1 A, 2 Generic[T], 3 A and Generic[T]), method kind (0 method, 1 static,
-# 2 class, 3 property), has constant, has nested class, type, type2, decorator(0 none, 1 final)
-CLASS_SEL = Tuple[(int,) * 7]
+# 2 class, 3 property), has constant, has nested class, type, type2, decorator(0 none, 1 final),
+# method name (0 m, 1 __class_getitem__, 2 __new__, 3 __init_subclass__; only with kind 0)
+CLASS_SEL = Tuple[(int,) * 8]
+MNAMES = ["m", "__class_getitem__", "__new__", "__init_subclass__"]
 
 
 def class_ok(t):
   return all([inrange(t[0], 0, 4), inrange(t[1], 0, 4), inrange(t[2], 0, 2),
               inrange(t[3], 0, 2), inrange(t[4], 0, NTY), inrange(t[5], 0, NTY),
-              inrange(t[6], 0, 2)])
+              inrange(t[6], 0, 2), inrange(t[7], 0, 4), any([t[1] == 0, t[7] == 0])])
 
 
 def class_key(t):
   key = 0
-  for x, r in zip(t, (4, 4, 2, 2, 18, 18, 2)):
+  for x, r in zip(t, (4, 4, 2, 2, 18, 18, 2, 4)):
     key = key * r + x
   return key
 
@@ -196,8 +198,10 @@ def class_text(t):
     body.append("    x: %s" % ty)
   if nested:
     body += ["    class N:", "        z: %s" % ty2]
+  mname = MNAMES[conc(t[7], 4)] if mk == 0 else "m"
   if mk == 0:
-    body.append("    def m(self, a: %s, *, k: %s = ...) -> %s: ..." % (ty, ty2, ty))
+    first = "self" if mname == "m" else "cls"
+    body.append("    def %s(%s, a: %s, *, k: %s = ...) -> %s: ..." % (mname, first, ty, ty2, ty))
   elif mk == 1:
     body += ["    @staticmethod", "    def m(a: %s) -> %s: ..." % (ty, ty2)]
   elif mk == 2:
@@ -206,8 +210,21 @@ def class_text(t):
     # the form pytype emits for properties (a `@property def` is not in the dialect)
     body.append("    m: Annotated[%s, 'property']" % ty)
   lines += body
-  spec = dict(base=base, mk=mk, const=const, nested=nested, deco=deco)
+  spec = dict(base=base, mk=mk, const=const, nested=nested, deco=deco, mname=mname)
   return "\n".join(lines) + "\n", spec
+
+
+def class_block_lines(text):
+  """Stripped non-blank lines of `class C` up to the end of its block."""
+  out, inside = [], False
+  for line in text.split("\n"):
+    if line.startswith("class C"):
+      inside = True
+    elif inside and line and not line.startswith(" "):
+      break
+    if inside and line.strip():
+      out.append(line.strip())
+  return out
 
 
 def check_class(cls, spec):
@@ -232,7 +249,10 @@ def check_class(cls, spec):
   else:
     want = [pytd.MethodKind.METHOD, pytd.MethodKind.STATICMETHOD,
             pytd.MethodKind.CLASSMETHOD][spec["mk"]]
-    ms = [m for m in cls.methods if m.name == "m"]
+    # methods Python itself treats specially even when undecorated
+    want = {"__new__": pytd.MethodKind.STATICMETHOD,
+            "__init_subclass__": pytd.MethodKind.CLASSMETHOD}.get(spec["mname"], want)
+    ms = [m for m in cls.methods if m.name == spec["mname"]]
     if len(ms) != 1 or ms[0].kind != want:
       problems.append("method m kind %r, spec %r" % ([m.kind for m in ms], want))
   return problems
@@ -249,6 +269,12 @@ def h_class(t: CLASS_SEL) -> bool:
   problems += check_class(ast0.Lookup("C"), spec)
   problems += ["emitted text: " + p for p in check_class(
       parser.parse_string(t1).Lookup("C"), spec)]
+  # the generated class block is in the printer's own format: printing what was
+  # read must reproduce its lines (no decorator added or dropped, nothing rewritten)
+  want_lines = sorted(class_block_lines(text))
+  got_lines = sorted(class_block_lines(t1))
+  if want_lines != got_lines:
+    problems.append("class C re-printed as %r, generated %r" % (got_lines, want_lines))
   record("C %r N" % (text[len(HEADER):],))
   return not problems
 
